@@ -71,9 +71,48 @@ def gen_system(rng):
             items.append(c)
         return Cat(items)
 
+    if rng.random() < 0.12:
+        # an ellipsis written around a comma: 'P (e1, e2)... S' stands for 'P (e1)... S, P (e2)... S' with ONE repetition count
+        from ..gen.expr import pr
+        k = rng.choice([2, 2, 3])
+        r = rng.choice([0, 1, 2, 2, 3])
+        group = "g:comma"
+        bodies = []
+        for _ in range(k):
+            def fresh():
+                n = namer.new()
+                names.append(n)
+                ell[n] = group
+                truth[n] = [rng.choice(SIZE_POOL) for _ in range(r)]
+                return Ax(n)
+            c = rng.random() if bodies else 0.0  # the first body always carries a name (the harness reads the repetition count off a name)
+            if c < 0.55:
+                body = [fresh()]
+            elif c < 0.7:
+                body = [Num(rng.choice([1, 2, 3]))]
+            elif c < 0.9:
+                body = [Flat([fresh(), rng.choice([fresh, lambda: Num(rng.choice([2, 3]))])()])]
+            else:
+                body = [fresh(), fresh()]
+            bodies.append(body)
+        outer = [n for n in names if ell.get(n) != group]
+        def odim():
+            # prefix / suffix dimensions use only names from outside the comma group
+            for _ in range(20):
+                d = dim()
+                from ..gen.expr import walk
+                if not any(isinstance(m, Ax) and ell.get(m.name) == group for m in walk([d])):
+                    return d
+            return Num(2)
+        pre = [odim() for _ in range(rng.randint(0, 2))] if outer else []
+        suf = [odim() for _ in range(rng.randint(0, 1))] if outer else []
+        from ..gen.expr import copy_expr
+        exprs = [copy_expr(pre) + [Ell([Flat(copy_expr(b))], group)] + copy_expr(suf) for b in bodies]
+        text = " ".join(x for x in [pr(pre), "(" + ", ".join(pr(b) for b in bodies) + ")...", pr(suf)] if x)
+        return exprs, truth, ell, text
     nt = rng.randint(1, 3)
     exprs = [[dim() for _ in range(rng.randint(0, 3))] for _ in range(nt)]
-    return exprs, truth, ell
+    return exprs, truth, ell, None
 
 
 def skeleton(exprs):
@@ -255,7 +294,7 @@ def run(spec, out):
     rng = random.Random(spec["seed"])
     OKERR = (einx.errors.RankError, einx.errors.AxisSizeError)
     for i in range(spec["n"]):
-        exprs, truth, ell = gen_system(rng)
+        exprs, truth, ell, sugared = gen_system(rng)
         reps = {g: len(truth[n]) for n, g in ell.items()}
         xex = [expand(e, reps) for e in exprs]
         sizes = {}
@@ -308,6 +347,9 @@ def run(spec, out):
                     kwargs[k] = truth[k][0] * f
                 big = k
         desc = ", ".join(pr(e) for e in exprs)
+        if sugared is not None:
+            desc = sugared  # the oracle works on the written-out system, einx gets the shorthand
+            out.count("ellipsis_around_comma")
         out.count(f"variant:{variant}")
         tensors = []
         toobig = False
